@@ -49,12 +49,13 @@ type modelObs struct {
 	rows  map[string]string // "b y" -> cells
 	prev  map[string]string // rows as they were before this block (for rows the block does not print)
 	srows map[string]string // "b y" -> cached:runs of the run-level terminal (rows that changed)
+	qrows map[string]string // "b y" -> the five arrays of every cell of the array-level grid terminal
 	tags  []string
 	X     string
 }
 
 func (d *driver) readBlock() (modelObs, error) {
-	o := modelObs{lines: map[string]string{}, rows: map[string]string{}, prev: map[string]string{}, srows: map[string]string{}}
+	o := modelObs{lines: map[string]string{}, rows: map[string]string{}, prev: map[string]string{}, srows: map[string]string{}, qrows: map[string]string{}}
 	if d.all == nil {
 		d.all = map[string]string{}
 	}
@@ -90,6 +91,11 @@ func (d *driver) readBlock() (modelObs, error) {
 			parts := strings.SplitN(line, " ", 4)
 			if len(parts) == 4 {
 				o.srows[parts[1]+" "+parts[2]] = parts[3]
+			}
+		case 'Q':
+			parts := strings.SplitN(line, " ", 4)
+			if len(parts) == 4 {
+				o.qrows[parts[1]+" "+parts[2]] = parts[3]
 			}
 		case 'T':
 			if line != "T -" {
